@@ -8,13 +8,13 @@ META = {
     "engine": "ClusterRef",
     "level": "model_checking",
     "text": "ClusterRef.tla models the xDS resolver's cluster reference counting: the current route's clusters (one reference held by "
-            "the current config selector), one reference per RPC between SelectConfig and OnCommitted, activeClusters, the clusters "
+            "the current config selector, however many route / weighted-cluster entries name the cluster), one reference per RPC between SelectConfig and OnCommitted, activeClusters, the clusters "
             "of the last pushed service config, route updates (new selector +1, prune and push, old selector -1) and the "
             "asynchronous follow-up update after a count dropped to zero.  TLC checks for 3 clusters, 3 RPCs and up to 3 route "
             "updates in all interleavings: a selected, uncommitted RPC's cluster is always in the pushed configuration, OnCommitted "
             "is effective at most once per RPC, and whenever no follow-up update is pending the configuration is exactly the current "
             "route's clusters plus the clusters still held by RPCs (negative controls: SelectConfig without a reference, a second "
-            "OnCommitted that decrements again).  Every transition of the model (with the follow-up update folded into its cause) "
+            "OnCommitted that decrements again, references acquired or released once per route entry instead of once per cluster).  Every transition of the model (with the follow-up update folded into its cause) "
             "is replayed on the real resolver fed by a real management server, xDS client and dependency manager; a recording "
             "resolver.ClientConn captures each pushed service config and TLC validates the configuration observed after every step.",
     "note": "The driver waits after each step until the configuration the specification expects has been pushed (bounded wait on "
@@ -29,7 +29,7 @@ def step_of(state_text, label):
     name = name[:-1] if name.endswith("T") else name
     exp = sorted(parse_tla_state(state_text, only={"inConfig"})["inConfig"]["$set"])
     if name == "RouteUpdate":
-        return {"a": "route", "s": sorted(parse_tla_value(args)["$set"]), "exp": exp}
+        return {"a": "route", "m": parse_tla_value(args), "exp": exp}
     v = [parse_tla_value(a.strip()) for a in args.split(",")] if args else []
     if name == "Select":
         return {"a": "select", "i": v[0], "c": v[1], "exp": exp}
@@ -55,7 +55,7 @@ def with_tail(beh):
     def apply(st):
         nonlocal route
         if st["a"] == "route":
-            s = set(st["s"])
+            s = {c + 1 for c, k in enumerate(st["m"]) if k > 0}
             for c in s:
                 ref[c] += 1
                 active.add(c)
@@ -77,8 +77,8 @@ def with_tail(beh):
             raise Inconclusive("mirror of the eager model disagrees with TLC on %r: %r" % (st, exp))
         out.append(st)
     if route:
-        target = [1] if route != {1} else [2]
-        st = {"a": "route", "s": target}
+        target = [1, 0, 0] if route != {1} else [0, 1, 0]
+        st = {"a": "route", "m": target}
         st["exp"] = apply(st)
         out.append(st)
         for i, c in sorted(rpc.items()):
@@ -93,6 +93,8 @@ def run(ctx):
     ctx.mc("ClusterRefMC", "ClusterRefMC.cfg", workers=ctx.pick(4, 8))
     ctx.neg("ClusterRefMC", "ClusterRefNeg1.cfg", expect="I_SelectedInConfig", workers=2)
     ctx.neg("ClusterRefMC", "ClusterRefNeg2.cfg", expect="I_CommitOnce", workers=2)
+    ctx.neg("ClusterRefMC", "ClusterRefNeg3.cfg", expect="I_Quiescent", workers=2)
+    ctx.neg("ClusterRefMC", "ClusterRefNeg4.cfg", expect="I_SelectedInConfig", workers=2)
     binary = ctx.go_build("internal/xds/resolver", name="c51", only=r"zz_verif_c51_")
     g = ctx.dump_graph("ClusterRefMC", "ClusterRefGen.cfg")
     behs = [with_tail(b) for b in ctx.edge_cover(g, step_of, limit=ctx.pick(600, 4000))]
